@@ -443,7 +443,7 @@ func (r *run) freshValue(prefix string, t types.Type) (Value, []*smt.Term) {
 func (r *run) sliceFacts(sv SliceV) []*smt.Term {
 	c := r.C()
 	zero := r.idxConst(0)
-	big := r.idxConst(1 << 40)
+	big := r.idxConst(r.E.sliceBound())
 	ref := sv.Base.Idxs[0]
 	return []*smt.Term{
 		c.Op(">=", nil, ref, c.IntC(0)),
@@ -1514,7 +1514,10 @@ func (r *run) noteDefer(fr *frame, d *ssa.Defer) {
 }
 
 func (r *run) mapUpdate(cur *node, x *ssa.MapUpdate) {
-	r.unsupported("map update")
+	// maps are not modelled (see lookupOp): the update is not recorded; a nil map would panic
+	if r.havocExterns != nil {
+		r.havocExterns["map update (not recorded)"] = true
+	}
 }
 
 // ---------- value instructions ----------
@@ -1643,6 +1646,11 @@ func (r *run) newRef(cur *node) *smt.Term {
 			continue
 		}
 		cur.setPV("G$"+g.Name, c.Store(cur.getPV("G$"+g.Name, g.Sort), a, v))
+		if r.cellLog != nil {
+			// (a single-cell write at the new reference, see writeCell)
+			r.wholeLog["G$"+g.Name] = r.wholeBefore
+			r.cellLog["G$"+g.Name] = append(r.cellLog["G$"+g.Name], cellWrite{idxs: []*smt.Term{a}, leaf: g.Sort.Elem})
+		}
 	}
 	return a
 }
@@ -1827,7 +1835,7 @@ func (r *run) sliceOp(cur *node, fr *frame, x *ssa.Slice) Value {
 
 func (r *run) stringSlice(cur *node, fr *frame, x *ssa.Slice, s Scalar, lo, hi *smt.Term) Value {
 	c := r.C()
-	ln := r.uf("str.len", r.idx(), s.T)
+	ln := r.uf("strlen$", r.idx(), s.T)
 	if lo == nil {
 		lo = r.idxConst(0)
 	}
@@ -1895,12 +1903,30 @@ func (r *run) lookupOp(cur *node, fr *frame, x *ssa.Lookup) Value {
 	if b, ok := x.X.Type().Underlying().(*types.Basic); ok && b.Info()&types.IsString != 0 {
 		s := r.scalarOf(cur.val(x.X), x.X.Type())
 		idx := r.toIdx(r.scalarOf(cur.val(x.Index), x.Index.Type()), x.Index.Type())
-		ln := r.uf("str.len", r.idx(), s)
+		ln := r.uf("strlen$", r.idx(), s)
 		r.abnormal(cur, fr, "index", x, c.Not(c.And(r.sle(r.idxConst(0), idx), r.slt(idx, ln))))
 		bs := r.scalarSort(types.Typ[types.Uint8])
-		return Scalar{r.uf("str.at", bs, s, idx)}
+		return Scalar{r.uf("strat$", bs, s, idx)}
 	}
-	r.unsupported("map lookup")
+	// maps are not modelled: a lookup yields an arbitrary value of the element type (and an arbitrary
+	// presence flag), an update is not recorded. Sound as long as no contract speaks about map contents.
+	if mt, ok := x.X.Type().Underlying().(*types.Map); ok {
+		v, as := r.freshValue("maplookup", mt.Elem())
+		for _, a := range as {
+			r.assume(c.True(), a)
+		}
+		for _, ref := range refsOf(v) {
+			r.assume(c.True(), c.Op("<", nil, ref, cur.getPV("$alloc", smt.Int)))
+		}
+		if r.havocExterns != nil {
+			r.havocExterns["map lookup (arbitrary value)"] = true
+		}
+		if x.CommaOk {
+			return TupleV{Elems: []Value{v, Scalar{c.Fresh("mapok", smt.Bool)}}}
+		}
+		return v
+	}
+	r.unsupported("lookup on %s", x.X.Type())
 	return nil
 }
 
